@@ -57,10 +57,21 @@ CLAIMED = {
             "= sum of archetype and table sizes, per-composition counts, total = used + recycled <= capacity, distinct "
             "archetypes, size <= capacity, memory products and sums, filter / observer / lock figures) and its equality with "
             "the statistics of a twin world that replays the same history and is asked once.", "7 C19"),
+    "C11": ("Layer B models the memory beyond each table's length (SpareCellsZero after swap-remove, both reset strategies, "
+            "growth, shrinking, recycling), so a component added without a value reads zero.  Conformance: creation / addition / "
+            "batch forms without initial value read back immediately; components holding a pointer, slice, map and string "
+            "(rebuilt from fresh heap objects at every write) must decode to the value last written after any number of moves, "
+            "growth, Shrink, Reset, under continuous garbage collection; after forced collections every heap object not "
+            "referenced from a component of an alive entity must have been finalized and no referenced one may be.", "7 C11"),
     "C12": ("Layer B is a deterministic state machine (every order-defining container is a sequence).  Product traces: the same "
             "TLC-generated and driver-generated histories are executed twice with the same process settings and in further "
             "processes with different GOGC / GOMAXPROCS (fresh map seeds); ArkProd requires equality of everything logged: "
             "returned handles, full projections, iteration order of every probe query, callback order, statistics.", "7 C12"),
+    "C13": ("ArkConc.tla: FilterN.Query and LockSafe / UnlockSafe as shared-memory steps with vector clocks; NoRace, distinct "
+            "bits for overlapping queries, all bits released, termination, for all interleavings of 2-4 goroutines.  The same "
+            "scenarios run on the real code built with the Go race detector (4-62 goroutines, shared and separate filters, "
+            "registered or not, per-query relation targets, Count / EntityAt / early Close); reports inside package ecs are "
+            "violations; every goroutine's result is validated against Select and the world must be unlocked at the end.", "7 C13"),
     "C14": ("Layer A has one action per operation kind, whatever the API path, so equivalence is a product-trace property: "
             "the same histories run through Map1..12 / Exchange1..8 / Filter0..8 / Observer1..4 (type parameters permuted, "
             "relations by index and by type) and through the ID-based API; each run is validated against layer A (values "
